@@ -154,6 +154,19 @@ def ext_type_bound():
     t = td.instantiate(args)
     b = t.type_bound()
     sym.check("ext_bound_any_iff_named_type_arg_any", sym.iff(_is_any(b), want_any))
+    # a second instantiation of the SAME definition whose arguments look alike but carry the opposite bounds
+    if not isinstance(td.bound, ext.ExplicitBound):
+        args2, anys2 = [], []
+        for i in range(nargs):
+            if is_type[i]:
+                b2 = sym.enum(f"arg{i}.b2", TypeBound)
+                args2.append(tys.TypeTypeArg(tys.Variable(i, b2)))
+                anys2.append(_is_any(b2))
+            else:
+                args2.append(tys.BoundedNatArg(i))
+                anys2.append(False)
+        want2 = sym.or_(*[sym.or_(*[sym.and_(ix == i, anys2[i]) for i in range(nargs)]) for ix in idxs]) if idxs else False
+        sym.check("second_instantiation_reports_its_own_bound", sym.iff(_is_any(td.instantiate(args2).type_bound()), want2))
     op = t._to_opaque()
     sym.check("opaque_form_carries_computed_bound", op.bound == b)
     sym.check("opaque_type_bound_same", op.type_bound() == b)
